@@ -29,16 +29,32 @@ func (c16) Gen(r *rand.Rand, tier string, run int) *core.Case {
 	}
 	objs := 2 + r.IntN(3)
 	c.Params["objects"] = objs
-	c.Params["conns"] = 1 + r.IntN(2)
-	c.Params["subscribe"] = r.IntN(2)
+	c.Params["conns"] = 1 + r.IntN(3)
+	c.Params["subscribe"] = r.IntN(4) // subscribers per object before the race
 	actors := 2 + r.IntN(3)
+	if r.IntN(3) == 0 {
+		// registrations arriving in a burst while the object is being removed
+		c.Batch = "subscribe-storm"
+		c.Params["conns"] = 3
+		c.Params["subscribe"] = 2 + r.IntN(2)
+		target := int64(1 + r.IntN(objs))
+		for a := 0; a < 2; a++ {
+			for i := 0; i < 2+r.IntN(3); i++ {
+				c.Ops = append(c.Ops, core.Op{Kind: "subscribe", Actor: 20 + a, X: target, Y: int64(r.IntN(9))})
+			}
+		}
+		c.Ops = append(c.Ops, core.Op{Kind: "call", Actor: 22, X: target}, core.Op{Kind: []string{"remove", "terminate"}[r.IntN(2)], Actor: 22, X: target, Y: int64(r.IntN(3))})
+		actors = 1 + r.IntN(2)
+	}
 	for a := 0; a < actors; a++ {
 		n := 1 + r.IntN(4)
 		for i := 0; i < n; i++ {
 			var op core.Op
 			switch x := r.IntN(10); {
-			case x < 4:
+			case x < 3:
 				op = core.Op{Kind: "call", X: int64(r.IntN(objs + 1))}
+			case x < 4:
+				op = core.Op{Kind: "subscribe", X: int64(1 + r.IntN(objs))}
 			case x < 6:
 				op = core.Op{Kind: "remove", X: int64(1 + r.IntN(objs))}
 			case x < 8:
@@ -61,9 +77,14 @@ type c16obj struct {
 	addRet     int64
 	removeRets []int64 // return of successful Remove / terminate
 	removeCall int64   // first invocation of a removal
-	subClosed  bool
-	subbed     bool
+	subs       []*c16sub
+	used       map[int]bool
 	proxies    []probe.ProbeProxy
+}
+
+type c16sub struct {
+	ackRet int64 // SubscribeTick returned (acknowledged)
+	closed bool
 }
 
 type c16state struct {
@@ -122,6 +143,52 @@ func (c16) Run(c *core.Case, env *core.Env) {
 		}
 		return o
 	}
+	subscribe := func(a int, o *c16obj, which int) {
+		if len(o.proxies) == 0 {
+			return
+		}
+		// one subscriber per (connection, signal) of an object: each one then
+		// owns a registration of its own (shared registrations have their own
+		// property, C13, and their own known findings)
+		st.mu.Lock()
+		if o.used == nil {
+			o.used = map[int]bool{}
+		}
+		k := which % (3 * len(o.proxies))
+		if o.used[k] {
+			st.mu.Unlock()
+			return
+		}
+		o.used[k] = true
+		st.mu.Unlock()
+		h := env.Invoke(a, "subscribe", fmt.Sprintf("slot%d sig%d", o.slot, which/len(o.proxies)%3))
+		p := o.proxies[which%len(o.proxies)]
+		var ch chan int32
+		var err error
+		switch which / len(o.proxies) % 3 {
+		case 0:
+			_, ch, err = p.SubscribeTick()
+		case 1:
+			_, ch, err = p.SubscribeTock()
+		default:
+			_, ch, err = p.SubscribeLevel()
+		}
+		env.Return(h, "", err)
+		if err != nil {
+			return
+		}
+		sub := &c16sub{ackRet: h.Ret}
+		st.mu.Lock()
+		o.subs = append(o.subs, sub)
+		st.mu.Unlock()
+		go func() {
+			for range ch {
+			}
+			st.mu.Lock()
+			sub.closed = true
+			st.mu.Unlock()
+		}()
+	}
 	// slot 0 is the service's own object: never removed
 	st.objs = append(st.objs, &c16obj{slot: 0, id: 1, impl: w.Impls[0], addRet: 1})
 	for _, cl := range clients {
@@ -138,18 +205,8 @@ func (c16) Run(c *core.Case, env *core.Env) {
 			env.Violate("setup/add", "adding an object failed")
 			return
 		}
-		if c.P("subscribe", 0) == 1 && len(o.proxies) > 0 {
-			_, ch, err := o.proxies[0].SubscribeTick()
-			if err == nil {
-				o.subbed = true
-				go func(o *c16obj) {
-					for range ch {
-					}
-					st.mu.Lock()
-					o.subClosed = true
-					st.mu.Unlock()
-				}(o)
-			}
+		for k := 0; k < c.P("subscribe", 0); k++ {
+			subscribe(90, o, k)
 		}
 	}
 	env.S.Quiesce()
@@ -178,6 +235,8 @@ func (c16) Run(c *core.Case, env *core.Env) {
 				case "call":
 					o := pick(op.X)
 					c16call(env, a, i, o, int(op.Y))
+				case "subscribe":
+					subscribe(a, pick(op.X), int(op.Y))
 				case "remove", "terminate":
 					o := pick(op.X)
 					if o.slot == 0 {
@@ -286,8 +345,16 @@ func (c16) Check(c *core.Case, env *core.Env, res zzsim.Result, v *core.Verdict)
 		if len(o.removeRets) == 0 && terms > 0 && o.removeCall == 0 {
 			bad("terminated-spuriously", "%s: termination hook ran although nobody removed the object", name)
 		}
-		if len(o.removeRets) > 0 && o.subbed && !o.subClosed {
-			bad("subscriber-not-told", "%s was removed but its subscriber's channel is still open", name)
+		if len(o.removeRets) > 0 {
+			// subscribers acknowledged before anybody asked for the removal
+			for i, sub := range o.subs {
+				if sub.ackRet < o.removeCall && !sub.closed {
+					bad("subscriber-not-told", "%s was removed but subscriber %d (acknowledged at %d, removal requested at %d) was not told: its channel is still open", name, i, sub.ackRet, o.removeCall)
+				}
+				if sub.ackRet < o.removeCall {
+					env.Probe("subscribers-of-removed-objects")
+				}
+			}
 		}
 		// calls invoked after the removal returned
 		firstRemoved := inf
